@@ -72,7 +72,7 @@ struct dispatch_table
                  // try the first guard
                  typedef typename ::boost::mpl::front<Sequence>::type first_row;
                  HandledEnum res = first_row::execute(fsm,region_index,state,evt);
-                 if (HANDLED_TRUE!=res && HANDLED_DEFERRED!=res)
+                 if (((int)res & ((int)HANDLED_TRUE | (int)HANDLED_DEFERRED)) == 0)
                  {
                     // if the first rejected, move on to the next one
                     HandledEnum sub_res = 
